@@ -29,17 +29,74 @@ func runC09(r *Run) {
 		for _, in := range instrsWhere(f, isReturn) {
 			n++
 			v := retOperand(in.(*ssa.Return), 0)
-			ok := false
-			why := ""
-			if s, isC := constString(asConst(v)); isC && s == "" {
-				ok, why = true, `""`
-			} else if u, isU := v.(*ssa.UnOp); isU && u.Op == token.MUL {
-				if ia, isIA := u.X.(*ssa.IndexAddr); isIA {
-					if p, isP := ia.X.(*ssa.Parameter); isP && p.Name() == "offers" {
-						ok, why = true, "offers[i]"
-					}
+			// "" or an element of the offers argument — directly, through a phi, or as the answer of a helper of the
+			// package that is handed the offers (`matched := firstAcceptedOffer(candidate, isAccepted, offers)`)
+			var isOffers func(x ssa.Value, d int) bool
+			isOffers = func(x ssa.Value, d int) bool {
+				p, isP := stripValue(x).(*ssa.Parameter)
+				if !isP || d > 3 {
+					return false
 				}
+				if p.Parent() == f {
+					return p.Name() == "offers"
+				}
+				g := p.Parent()
+				calls := staticCallersOf(g)
+				if len(calls) == 0 {
+					return false
+				}
+				for i, gp := range g.Params {
+					if gp != p {
+						continue
+					}
+					for _, c := range calls {
+						if i >= len(c.Call.Args) || !isOffers(c.Call.Args[i], d+1) {
+							return false
+						}
+					}
+					return true
+				}
+				return false
 			}
+			var offerOrEmpty func(x ssa.Value, d int) (bool, string)
+			offerOrEmpty = func(x ssa.Value, d int) (bool, string) {
+				x = stripValue(x)
+				if d > 4 {
+					return false, ""
+				}
+				if s, isC := constString(asConst(x)); isC && s == "" {
+					return true, `""`
+				}
+				switch y := x.(type) {
+				case *ssa.UnOp:
+					if y.Op == token.MUL {
+						if ia, isIA := y.X.(*ssa.IndexAddr); isIA && isOffers(ia.X, 0) {
+							return true, "offers[i]"
+						}
+					}
+				case *ssa.Phi:
+					for _, e := range y.Edges {
+						if ok, _ := offerOrEmpty(e, d+1); !ok {
+							return false, ""
+						}
+					}
+					return len(y.Edges) > 0, `offers[i] or ""`
+				case *ssa.Call:
+					g := y.Call.StaticCallee()
+					if g == nil || g.Pkg != f.Pkg || len(g.Blocks) == 0 {
+						return false, ""
+					}
+					rets := instrsWhereOne(g, isReturn)
+					for _, ri := range rets {
+						if ok, _ := offerOrEmpty(retOperand(ri.(*ssa.Return), 0), d+1); !ok {
+							return false, ""
+						}
+					}
+					return len(rets) > 0, "the answer of " + g.Name() + ` (offers[i] or "")`
+				}
+				return false, ""
+			}
+			ok, why := offerOrEmpty(v, 0)
 			r.check(ok, fmt.Sprintf("getOffer:return#%d", n), r.pos(in), "returns "+why, "getOffer can return a value that is neither \"\" nor one of the offers")
 		}
 		r.atLeast("returns", n, 3)
@@ -494,7 +551,7 @@ func runC09(r *Run) {
 			}
 			loops[loopKey{c.Instr.Parent(), hdr}] = r.pos(c.Instr)
 		}
-		r.atLeast("Put sites for the maps of parsed ranges", n, 2)
+		r.atLeast("Put sites for the maps of parsed ranges", n, 1)
 		var where []string
 		for _, p := range loops {
 			where = append(where, p)
@@ -840,7 +897,7 @@ func pooledParamMapRule(r *Run) {
 	}
 	r.check(okClear || okPutClear, "getOffer$callback:pooled-map-cleared", r.pos(get.Instr), "the pooled map is cleared on every path from pool.Get to the fill (or before every Put)", "a pooled parameter map can be used without being cleared: parameters of an earlier request's Accept header take part in matching (e.g. after `text/html;level=1;q=0` the next parameterised range inherits level=1)")
 	puts = callsMatching(f, false, nameIs("(*sync.Pool).Put"))
-	r.atLeast("Put sites", len(puts), 2)
+	r.atLeast("Put sites", len(puts), 1)
 	for i, p := range puts {
 		// after Put: return, or the next candidate — never the acceptance predicate with the same candidate
 		var outer *ssa.BasicBlock
